@@ -232,13 +232,13 @@ class SynthPM:
         lt = case['lto']
         tm = lambda v: ThrustModeValues(*[float(x) for x in v])  # noqa: E731
         self.edb = EDBEntry(
-            engine='verif engine', uid=f'V{idx}', engine_type=lt['engine_type'], BP_Ratio=lt['BPR'],
+            engine='verif engine', uid=(idx if isinstance(idx, str) else f'V{idx}'), engine_type=lt['engine_type'], BP_Ratio=lt['BPR'],
             rated_thrust=100.0, fuel_flow=tm(lt['fuel_flow']), CO_EI_matrix=tm(lt['EI_CO']),
             HC_EI_matrix=tm(lt['EI_HC']), EI_NOx_matrix=tm(lt['EI_NOx']), SN_matrix=tm(lt['SN']),
             nvPM_mass_matrix=tm(lt['nvPM_mass']), nvPM_num_matrix=tm(lt['nvPM_num']),
             PR=tm([lt['PR']] * 4), EImass_max=lt['EImass_max'], EImass_max_thrust=lt['EImass_max_thrust'],
             EInum_max=lt['EInum_max'], EInum_max_thrust=lt['EInum_max_thrust'])
-        self.lto = LTOPerformance(source='verif', ICAO_UID=f'V{idx}', rated_thrust=100.0e3,
+        self.lto = LTOPerformance(source='verif', ICAO_UID=(idx if isinstance(idx, str) else f'V{idx}'), rated_thrust=100.0e3,
                                   thrust_pct=tm(lt['thrust_pct']), fuel_flow=tm(lt['fuel_flow']),
                                   EI_NOx=tm(lt['EI_NOx']), EI_HC=tm(lt['EI_HC']), EI_CO=tm(lt['EI_CO']))
         a = case['apu']
@@ -252,13 +252,30 @@ class SynthPM:
         self.number_of_engines = lt['n_eng']
 
 
-def load_config(cfg):
+_LOADED_CFG = None
+
+
+def load_config(cfg, reuse=False):
+    """(Re)load the Config singleton with this emissions configuration.  reuse: keep the loaded singleton when it
+    already has exactly this configuration (a session of several calls under one configuration)."""
     import os
 
     from AEIC.config import Config
+    global _LOADED_CFG
+    if reuse and _LOADED_CFG == cfg:
+        return
     os.environ['AEIC_PATH'] = str(REPO / 'tests/data')
     Config.reset()
+    _LOADED_CFG = None
     Config.load(emissions=dict(cfg), data_path_overrides=[REPO / 'tests/data'])
+    _LOADED_CFG = dict(cfg)
+
+
+def reset_config():
+    from AEIC.config import Config
+    global _LOADED_CFG
+    Config.reset()
+    _LOADED_CFG = None
 
 
 def emissions_to_dict(e):
@@ -278,20 +295,23 @@ def emissions_to_dict(e):
             'total_fuel': float(e.total_fuel_burn), 'lifecycle': float(e.lifecycle_co2)}
 
 
-def run_impl(case, idx=0, real_container=False):
-    """compute_emissions on the case -> {'value': {...}} or {'error': type, 'msg': str, 'key': ...}"""
-    from AEIC.config import Config
+def run_impl(case, idx=0, real_container=False, session=False):
+    """compute_emissions on the case -> {'value': {...}} or {'error': type, 'msg': str, 'key': ...}
+    idx: int (a fresh engine identity V<idx>) or str (the engine identity itself: calls that pass the same string
+    present the same engine / LTO source + UID to the code, as successive flights of one aircraft type do).
+    session: keep the Config singleton loaded afterwards (and reuse it if the configuration is unchanged)."""
+    import contextlib
+    import io
+
     from AEIC.emissions import compute_emissions
     from AEIC.types import Fuel
     try:
-        load_config(case['cfg'])
+        load_config(case['cfg'], reuse=session)
         pm = SynthPM(case, idx)
         fuel = Fuel.model_validate(case['fuel'])
         traj = real_trajectory(case['traj']) if real_container else SynthTrajectory(case['traj'])
         with warnings.catch_warnings():
             warnings.simplefilter('ignore')
-            import contextlib
-            import io
             with contextlib.redirect_stdout(io.StringIO()):          # compute_EI_NOx prints for P3T3
                 e = compute_emissions(pm, fuel, traj)
         return {'value': emissions_to_dict(e)}
@@ -301,7 +321,69 @@ def run_impl(case, idx=0, real_container=False):
             key = getattr(ex.args[0], 'name', str(ex.args[0]))
         return {'error': type(ex).__name__, 'msg': str(ex), 'key': key}
     finally:
-        Config.reset()
+        if not session:
+            reset_config()
+
+
+# ---------------------------------------------------------------------------
+# histories: several calls in ONE process that differ in ONE input
+# ---------------------------------------------------------------------------
+
+VARY = ['fuel', 'fuel', 'fuel', 'traj', 'lto', 'apu', 'class', 'cfg', 'cfg']
+PATTERNS = [[0, 1], [0, 1, 0], [0, 1, 2], [0, 0, 1], [0, 1, 1, 0], [0, 1, 0, 1], [0, 1, 2, 0]]
+
+
+def gen_history(rng):
+    """2-4 compute_emissions calls that keep everything fixed except one input (fuel / trajectory / LTO row /
+    APU / aircraft class / one configuration switch), in varying order incl. A,B,A.  The property must hold for
+    every call whatever was computed before.  Same engine identity throughout (a different one only for a
+    different LTO row)."""
+    what = rng.choice(VARY)
+    base = gen_case(rng)
+    while base['cfg']['pmnvol_method'] == 'foa3':                 # refused by name: nothing to balance
+        base['cfg'] = gen_config(rng)
+    if base['cfg']['lifecycle_enabled'] and rng.random() < 0.7:
+        base['cfg']['lifecycle_enabled'] = False                  # let fuels without the datum through
+    if len(base['traj']['fuel_mass']) > 60:
+        base['traj'] = gen_trajectory(rng)
+    variants = [base]
+    for k in (1, 2):
+        v = dict(base)
+        if what == 'fuel':
+            f = gen_fuel(rng)
+            while any(f == w['fuel'] for w in variants):
+                f = gen_fuel(rng)
+            v['fuel'] = f
+        elif what == 'traj':
+            v['traj'] = gen_trajectory(rng)
+        elif what == 'lto':
+            v['lto'] = gen_lto(rng)
+        elif what == 'apu':
+            a = gen_apu(rng)
+            while any(a == w['apu'] for w in variants):
+                a = gen_apu(rng)
+            v['apu'] = a
+        elif what == 'class':
+            v['class'] = rng.choice([c for c in ('wide', 'narrow', 'small', 'freight') if c != base['class']])
+        else:
+            opt = rng.choice(list(OPTIONS))
+            vals = [x for x in OPTIONS[opt] if x != base['cfg'][opt] and not (opt == 'pmnvol_method' and x == 'foa3')]
+            v['cfg'] = {**base['cfg'], opt: rng.choice(vals)}
+        variants.append(v)
+    pattern = rng.choice(PATTERNS)
+    return {'vary': what, 'pattern': pattern, 'steps': [variants[k] for k in pattern],
+            'engine': [f'-lto{k}' if what == 'lto' else '' for k in pattern]}
+
+
+def run_history(hist, hid):
+    """all steps in this process, one after the other; Config reloaded only when the configuration changes"""
+    out = []
+    try:
+        for step, eng in zip(hist['steps'], hist['engine']):
+            out.append(run_impl(step, f'H{hid}{eng}', session=True))
+    finally:
+        reset_config()
+    return out
 
 
 # ---------------------------------------------------------------------------
@@ -721,8 +803,41 @@ def nontrivial(case):
     return plateau or windowed or case['cfg'] != DEFAULT_CFG
 
 
-def check_cases(chk: Check, cases, state: dict, real_every: int = 7):
-    impl = [run_impl(c, i, real_container=(i % real_every == 3)) for i, c in enumerate(cases)]
+def payload(c, label, **extra):
+    """what goes into the replay file: the case, and for a step of a history the whole history"""
+    p = {'case': c, **extra}
+    if label:
+        p['history'] = label['history']
+        p['step'] = label['step']
+    return p
+
+
+def where_in_history(label):
+    if not label:
+        return ''
+    h = label['history']
+    return (f" [call {label['step'] + 1} of {len(h['steps'])} in one process; only the {h['vary']} varies, "
+            f"order {h['pattern']}]")
+
+
+def check_histories(chk: Check, hists, state: dict):
+    """every call of every history goes through the same oracle and the same model correspondence"""
+    cases, impl, labels = [], [], []
+    for h, hist in enumerate(hists):
+        res = run_history(hist, h)
+        chk.count('history:vary-' + hist['vary'])
+        chk.count('history:calls', len(res))
+        for k, (c, r) in enumerate(zip(hist['steps'], res)):
+            cases.append(c)
+            impl.append(r)
+            labels.append({'history': hist, 'step': k})
+    check_cases(chk, cases, state, impl=impl, labels=labels)
+
+
+def check_cases(chk: Check, cases, state: dict, real_every: int = 7, impl=None, labels=None):
+    if impl is None:
+        impl = [run_impl(c, i, real_container=(i % real_every == 3)) for i, c in enumerate(cases)]
+    labels = labels or [None] * len(cases)
     exprs, where = [], []
     for i, (c, r) in enumerate(zip(cases, impl)):
         if 'value' in r:
@@ -749,26 +864,26 @@ def check_cases(chk: Check, cases, state: dict, real_every: int = 7):
                 # an internal error for an option combination belongs to C11; while the tree has that defect the
                 # combination is not a "supported combination" of C01's quantifier.  On a repaired tree it is.
                 if not state[fid]:
-                    chk.fail(f"{r['error']} from compute_emissions: {r['msg'][:120]}", {'case': c, 'impl': r},
+                    chk.fail(f"{r['error']} from compute_emissions: {r['msg'][:120]}", payload(c, labels[i], impl=r),
                              signature=F9_SIGNATURE if fid == 'F9' else FC11A_SIGNATURE)
             else:
-                chk.fail(f"compute_emissions raised {r['error']}: {r['msg'][:200]} for a supported combination",
-                         {'case': c, 'impl': r}, signature=None)
+                chk.fail(f"compute_emissions raised {r['error']}: {r['msg'][:200]} for a supported combination"
+                         + where_in_history(labels[i]), payload(c, labels[i], impl=r), signature=None)
             continue
         chk.count('outcome:value')
         v = r['value']
         bad = oracle(c, v)
         if bad:
             clause, detail = bad[0]
-            chk.fail(f'inventory not balanced — {clause}: {detail}',
-                     {'case': c, 'violations': bad[:6]}, signature=FC01A_SIGNATURE if is_fc01a(c, bad) else None)
+            chk.fail(f'inventory not balanced — {clause}: {detail}' + where_in_history(labels[i]),
+                     payload(c, labels[i], violations=bad[:6]), signature=FC01A_SIGNATURE if is_fc01a(c, bad) else None)
             continue
         m = mod_by_case.get(i)
         if m is None:
             continue
         d = diff_model(v, model_to_dict(m), c)
         if d:
-            chk.broken('correspondence:C01_Model.run_case', d, {'case': c})
+            chk.broken('correspondence:C01_Model.run_case', d + where_in_history(labels[i]), payload(c, labels[i]))
         else:
             chk.traces_validated += 1
 
@@ -776,16 +891,29 @@ def check_cases(chk: Check, cases, state: dict, real_every: int = 7):
 def load_corpus(chk):
     out = []
     for f in sorted((VERIF / 'corpus' / chk.pid).glob('*.json')):
-        out.append(json.loads(f.read_text())['case'])
+        d = json.loads(f.read_text())
+        if 'case' in d:
+            out.append(d['case'])
+    return out
+
+
+def load_corpus_histories(chk):
+    out = []
+    for f in sorted((VERIF / 'corpus' / chk.pid).glob('*.json')):
+        d = json.loads(f.read_text())
+        if 'history' in d:
+            out.append(d['history'])
     return out
 
 
 def run(chk: Check):
-    chk.rule = ('cases = (configuration drawn from the 41 472-option product) x (trajectory of 1-400 points with '
+    chk.rule = ('single calls: cases = (configuration drawn from the 41 472-option product) x (trajectory of 1-400 points with '
                 'zero-burn plateaus, stratospheric cruise, climb/descent windows in {0,1,k,n}) x (random positive '
                 'LTO/EDB row, 2-4 engines) x (every shipped APU, unknown APU, no APU, random APU) x (4 aircraft classes) '
                 'x (Jet-A, SAF, random fuels); non-trivial = has a zero-burn segment, or a proper window under lto '
-                'accounting, or a non-default configuration')
+                'accounting, or a non-default configuration; plus HISTORIES: 2-4 compute_emissions calls in one process for the '
+                'same engine identity that differ in exactly one input (fuel / trajectory / LTO row / APU / class / one '
+                'option), orders incl. A,B,A — every call is checked by the same oracle and model')
     chk.trusted += ['translator/c01_extract.py + translator/py2coq.py (numerically cross-checked each run)',
                     'harness/c01.py: correspondence (rel 1e-9) and the fsum re-summation oracle',
                     'real-number theorems vs binary64 execution: gap covered by the correspondence tolerance and the '
@@ -809,11 +937,16 @@ def run(chk: Check):
         cases.append(gen_case(chk.rng, cfg))
     cases.append(gen_case(chk.rng, dict(DEFAULT_CFG)))
     check_cases(chk, cases, state)
+    # the history stream: statefulness across calls (memoisation keyed on too little, mutated shared data)
+    hists = load_corpus_histories(chk) + [gen_history(chk.rng) for _ in range(chk.n(70, 700))]
+    check_histories(chk, hists, state)
 
 
 def replay(chk: Check, rp):
     chk.coq_props('props/C01_Props.v')
     extract(chk)
-    case = (rp.get('case') or {}).get('case')
-    if case:
-        check_cases(chk, [case], tree_state(), real_every=10 ** 9)
+    pl = rp.get('case') or {}
+    if pl.get('history'):
+        check_histories(chk, [pl['history']], tree_state())
+    elif pl.get('case'):
+        check_cases(chk, [pl['case']], tree_state(), real_every=10 ** 9)
